@@ -439,14 +439,25 @@ class CmpExtractor:
             env2 = dict(env)
             self.bind(n["pat"], e, env2)
             depth = len(self.markers)
+            self.loop_depth = getattr(self, "loop_depth", 0) + 1
             self.body_expr(n["body"], env2, False)
+            self.loop_depth -= 1
             self.close_markers(depth, "loop")
         elif k == "Loop":
             depth = len(self.markers)
+            self.loop_depth = getattr(self, "loop_depth", 0) + 1
             self.body_expr(n["body"], dict(env), False)
+            self.loop_depth -= 1
             self.close_markers(depth, "loop")
         elif k == "Return":
             if n.get("e") is not None:
+                if getattr(self, "loop_depth", 0) > 0 and self.is_reject_value(n["e"]) is None:
+                    # `return <nested comparison>` inside a loop: when that comparison finds nothing the function answers
+                    # 'no difference' without looking at the remaining elements
+                    pe = peel_block(n["e"])
+                    bound_some = pe.get("k") == "Var" and isinstance(env.get(pe["v"]), tuple) and env[pe["v"]][:1] == ("known-reject",)
+                    if not bound_some:
+                        self.add("loop-return", what=self.describe(n["e"], env))
                 self.result_expr(n["e"], env)
         elif k == "Try":
             inner = n["e"]
